@@ -53,9 +53,29 @@ func nontrivial(r *Runner) bool {
 
 var nontrivialRules = map[string]func(r *Runner) bool{
 	"C01": func(r *Runner) bool { return r.Cnt["overwrites"]+r.Cnt["deletes_present"] > 0 && r.Cnt["gets"] > 1 },
+	"C02": func(r *Runner) bool { return r.Cnt["restarts"] > 0 && len(r.States) > 2 },
+	"C05": func(r *Runner) bool { return r.Cnt["batches"] > 0 && r.Cnt["batch_repeat_key"]+r.Cnt["batch_get_from_db"] > 0 },
+	"C06": func(r *Runner) bool { return r.Cnt["merges"] > 0 && r.Cnt["restarts_after_merge"] > 0 },
+	"C10": func(r *Runner) bool { return r.Cnt["iter_sessions_multi"] > 0 },
+	"C13": func(r *Runner) bool {
+		return r.Cnt["always_checks"]+r.Cnt["threshold_checks"]+r.Cnt["sync_batch_checks"]+r.Cnt["all_synced_checks"] > 1
+	},
+	"C15": func(r *Runner) bool { return r.Cnt["puts"]+r.Cnt["batch_ops"] > 2 },
+	"C17": func(r *Runner) bool { return r.Cnt["stat_checks"] > 2 && r.Cnt["overwrites"]+r.Cnt["deletes_present"] > 0 },
+	"C18": func(r *Runner) bool { return r.Cnt["hint_checks"] > 0 && r.Cnt["hint_entries"] > 1 },
+	"C20": func(r *Runner) bool { return r.Cnt["backups"] > 0 && len(r.States) > 2 },
 }
 
 // NontrivialRuleText documents the rules (copied into the evidence).
 var NontrivialRuleText = map[string]string{
 	"C01": "case has >=1 overwrite or delete of a present key and >=2 judged reads; distinct = distinct hash of the executed case (config + concrete operations)",
+	"C02": "case has >=1 restart and >=2 acknowledged mutations; distinct = distinct hash of the executed case",
+	"C05": "case has >=1 committed batch with a repeated key or a read that falls through to the database; distinct = distinct case hash",
+	"C06": "case has >=1 successful Merge followed by an adopting restart; distinct = distinct case hash",
+	"C10": "case has >=1 iterator session over >=2 visible keys; distinct = distinct case hash",
+	"C13": "case reached >=2 policy-invariant evaluations (Always / Threshold / Sync batch / Sync()/Close()); distinct = distinct case hash",
+	"C15": "case made >=3 writes through the reused, poisoned caller buffers; distinct = distinct case hash",
+	"C17": "case has >=3 exact Stat recomputations and >=1 overwrite or delete; distinct = distinct case hash",
+	"C18": "case has >=1 hint file with >=2 entries compared entry by entry with the merged files; distinct = distinct case hash",
+	"C20": "case has >=1 backup of a database with >=2 acknowledged mutations; distinct = distinct case hash",
 }
